@@ -94,7 +94,8 @@ def emitCmd (ops : String) : String :=
     | .error .multipleProducers => s!"ERR:MultipleProducers|steps={steps}"
     | .error .newline => s!"ERR:Newline|steps={steps}"
     | .error .pipe => s!"ERR:Pipe|steps={steps}"
-    | .ok o => "|".intercalate ([s!"OK|steps={steps}", "R:" ++ encL o.rules] ++ o.builds.map dumpOut)
+    | .ok o => "|".intercalate ([s!"OK|steps={steps}", "R:" ++ encL o.rules, "P:" ++ encodeStr (Emit.printBuilds o.builds)]
+        ++ o.builds.map dumpOut)
 
 def handle (cmd : String) (fs : List String) : String :=
   match cmd, fs with
